@@ -225,7 +225,7 @@ func PickBy[K comparable, V any](collection map[K]V, fn func(key K, val V) bool)
 
 	for k, v := range collection {
 		if fn(k, v) {
-			result[k] = collection[k]
+			result[k] = v
 		}
 	}
 
